@@ -299,6 +299,56 @@ theorem rel_ic_congr (kind : Kind) (s x : K) (a b : Option K) (h : icv a = icv b
     · simp only [TT.rel, capCurrent_ivp, h]
     · simp [TT.rel, capCurrent]
 
+/-! ### the chain / group theorems with the value AND initial condition the code computes
+
+  (`_do_simplify_combine`: value `combineVal`, initial condition `combineIC`, after `_check_ic` = `checkIC` for the
+  shared cases; the surviving member is the one the signs are taken relative to, so its own sign is `true`) -/
+
+/-- series inductors of ANY number, as the code combines them: the members agree (`checkIC`), the result carries the
+    surviving member's initial current (`combineIC true`) -/
+theorem series_chain_L_code [DecidableEq K] (kind : Kind) (s : K) (ls : List (Bool × K × Option K)) (first : Option K)
+    (hck : checkIC (ls.map (fun p => (p.1, p.2.2))) = true)
+    (hfirst : ∃ p ∈ ls, p.1 = true ∧ p.2.2 = first) (v i : K) :
+    chainRel kind s (ls.map (fun p => (TT.L p.2.1 p.2.2).orient p.1)) v i ↔
+      TT.rel kind s (.L (combineVal true (ls.map (·.2.1))) (combineIC true first (ls.map (fun p => (p.1, p.2.2))))) v i := by
+  obtain ⟨I0, hI0⟩ := checkIC_sound _ hck
+  have hI : ∀ p ∈ ls, sgn p.1 (icv p.2.2) = I0 := fun p hp => hI0 (p.1, p.2.2) (List.mem_map.mpr ⟨p, hp, rfl⟩)
+  obtain ⟨p, hp, hp1, hp2⟩ := hfirst
+  have hf : icv first = I0 := by have := hI p hp; rw [hp1, hp2] at this; simpa [sgn] using this
+  rw [combineIC_shared, series_chain_L kind s ls I0 hI v i]
+  exact (rel_ic_congr kind s _ (some I0) first (by rw [hf]; rfl) v i).1
+
+/-- parallel capacitors of any number, as the code combines them -/
+theorem parallel_group_C_code [DecidableEq K] (kind : Kind) (s : K) (cs : List (Bool × K × Option K)) (first : Option K)
+    (hck : checkIC (cs.map (fun p => (p.1, p.2.2))) = true)
+    (hfirst : ∃ p ∈ cs, p.1 = true ∧ p.2.2 = first) (v i : K) :
+    groupRel kind s (cs.map (fun p => (TT.C p.2.1 p.2.2).orient p.1)) v i ↔
+      TT.rel kind s (.C (combineVal true (cs.map (·.2.1))) (combineIC true first (cs.map (fun p => (p.1, p.2.2))))) v i := by
+  obtain ⟨V0, hV0⟩ := checkIC_sound _ hck
+  have hV : ∀ p ∈ cs, sgn p.1 (icv p.2.2) = V0 := fun p hp => hV0 (p.1, p.2.2) (List.mem_map.mpr ⟨p, hp, rfl⟩)
+  obtain ⟨p, hp, hp1, hp2⟩ := hfirst
+  have hf : icv first = V0 := by have := hV p hp; rw [hp1, hp2] at this; simpa [sgn] using this
+  rw [combineIC_shared, parallel_group_C kind s cs V0 hV v i]
+  exact (rel_ic_congr kind s _ (some V0) first (by rw [hf]; rfl) v i).2
+
+/-- series capacitors of any number, as the code combines them (`combineIC false`: the signed sum, absent = 0) -/
+theorem series_chain_C_code (kind : Kind) (hk : kind = .lap ∨ kind = .ivp) (s : K) (hs : s ≠ 0)
+    (cs : List (Bool × K × Option K)) (hc : ∀ p ∈ cs, p.2.1 ≠ 0)
+    (hsum : sumK ((cs.map (·.2.1)).map (fun c => 1 / c)) ≠ 0) (x : Option K) (v i : K) :
+    chainRel kind s (cs.map (fun p => (TT.C p.2.1 p.2.2).orient p.1)) v i ↔
+      TT.rel kind s (.C (combineVal false (cs.map (·.2.1))) (combineIC false x (cs.map (fun p => (p.1, p.2.2))))) v i := by
+  rw [series_chain_C kind hk s hs cs hc hsum v i]
+  exact (rel_ic_congr kind s _ _ _ (by rw [combineIC_additive]; simp [icv, List.map_map, Function.comp_def]) v i).2
+
+/-- parallel inductors of any number, as the code combines them -/
+theorem parallel_group_L_code (kind : Kind) (hk : kind = .lap ∨ kind = .ivp) (s : K) (hs : s ≠ 0)
+    (ls : List (Bool × K × Option K)) (hl : ∀ p ∈ ls, p.2.1 ≠ 0)
+    (hsum : sumK ((ls.map (·.2.1)).map (fun l => 1 / l)) ≠ 0) (x : Option K) (v i : K) :
+    groupRel kind s (ls.map (fun p => (TT.L p.2.1 p.2.2).orient p.1)) v i ↔
+      TT.rel kind s (.L (combineVal false (ls.map (·.2.1))) (combineIC false x (ls.map (fun p => (p.1, p.2.2))))) v i := by
+  rw [parallel_group_L kind hk s hs ls hl hsum v i]
+  exact (rel_ic_congr kind s _ _ _ (by rw [combineIC_additive]; simp [icv, List.map_map, Function.comp_def]) v i).1
+
 /-! ### no other value would do -/
 
 /-- two voltage sources describe the same relation iff their values are equal: the signed sum
@@ -332,7 +382,9 @@ theorem rule_L_ic_unique (s l a b : K) :
     linear_combination -this
   · intro h v i; rw [h]
 
-theorem plain_sum_wrong_for_series_L_ic : ¬ ((2 + 4 : ℚ) * (3 + 3) = (2 + 4) * 3) := by norm_num
+theorem plain_sum_wrong_for_series_L_ic :
+    ¬ (∀ v i : ℚ, TT.rel Kind.ivp (1 : ℚ) (.L (2 + 4) (some (3 + 3))) v i ↔ TT.rel Kind.ivp 1 (.L (2 + 4) (some 3)) v i) := by
+  rw [rule_L_ic_unique]; norm_num
 
 /-! ### the ten two-element equivalences (instances of the chain / group theorems) -/
 
